@@ -164,6 +164,46 @@ pub fn cff_charstring(d: &[u8], g: usize) -> Option<Vec<u8>> {
     index_obj(d, cs, g).map(|b| b.to_vec())
 }
 
+/// The names (string ids) of the glyphs of a name-keyed CFF 1 table as its charset says: format 0 / 1 / 2 tables,
+/// the predefined ISOAdobe charset (glyph g is SID g up to 228; by `0 charset` or by the absence of the operator).
+/// 0xFFFF: a glyph the charset does not name.  None: not walkable / a predefined Expert charset.
+pub fn cff_names(d: &[u8]) -> Option<Vec<u16>> {
+    let hdr = *d.get(2)? as usize;
+    let (_, _, _, after_name) = index_at(d, hdr)?;
+    let top = index_obj(d, after_name, 0)?;
+    let ops = dict_ops(top);
+    let cs = ops.iter().find(|o| o.0 == 17)?.1.first().copied()? as usize;
+    let (n, _, _, _) = index_at(d, cs)?;
+    let at = ops.iter().find(|o| o.0 == 15).and_then(|o| o.1.first().copied()).unwrap_or(0) as usize;
+    let mut names: Vec<u16> = vec![0];
+    match at {
+        0 => names.extend((1..n).map(|g| if g <= 228 { g as u16 } else { 0xFFFF })),
+        1 | 2 => return None,
+        _ => match *d.get(at)? {
+            0 => {
+                for g in 1..n {
+                    names.push(be16(d, at + 1 + 2 * (g - 1))?);
+                }
+            }
+            f @ (1 | 2) => {
+                let mut p = at + 1;
+                while names.len() < n {
+                    let first = be16(d, p)? as usize;
+                    let left = if f == 1 { *d.get(p + 2)? as usize } else { be16(d, p + 2)? as usize };
+                    p += if f == 1 { 3 } else { 4 };
+                    for k in 0..=left {
+                        if names.len() < n {
+                            names.push((first + k).min(0xFFFF) as u16);
+                        }
+                    }
+                }
+            }
+            _ => return None,
+        },
+    }
+    Some(names)
+}
+
 #[derive(Clone, Debug, Default)]
 pub struct CffFacts {
     pub cid: bool,
